@@ -194,6 +194,11 @@ def check_routes(run, bad):
         # and curvatures come from the numerical fall-back, taken on the end potential itself)
         pairs.append("X%d-V%d : spline(>0 as.zbl 14 8 >=%r exp_spline >=%r mybuck %r %r %r)" % (i, i, rd, ra, A, rho, C))
         pairs.append("X%d-U%d : spline(mybm %r %r >%r buck4_spline %r >%r mybuck 0 1 %r)" % (i, i, A, rho, rd, rm, ra, C))
+        # a modifier as the start or as the end potential, with an exclusive and with an inclusive marker at the knot next to it
+        pairs.append("X%d-T%d : spline(>0 as.zbl 14 8 >=%r exp_spline >%r sum(as.buck %r %r %r, as.constant 0.5))" % (i, i, rd, ra, A, rho, C))
+        pairs.append("X%d-S%d : spline(>0 as.zbl 14 8 >%r exp_spline >=%r sum(as.buck %r %r %r, as.constant 0.5))" % (i, i, rd, ra, A, rho, C))
+        pairs.append("X%d-R%d : spline(sum(as.bornmayer %r %r, as.constant 0.25) >%r buck4_spline %r >%r as.buck 0 1 %r)" % (i, i, A, rho, rd, rm, ra, C))
+        pairs.append("X%d-Q%d : spline(>=0 as.zbl 14 8 >%r exp_spline >%r product(as.constant 2, as.buck %r %r %r))" % (i, i, rd, ra, A, rho, C))
     forms = "[Potential-Form]\nmybuck(r, A, rho, C) = A*exp(-r/rho) - C/r^6\nmybm(r, A, rho) = A*exp(-r/rho)\n\n"
     text = "[Tabulation]\ntarget : LAMMPS\nnr : 5\ncutoff : 4.0\n\n" + forms + "[Pair]\n" + "\n".join(pairs) + "\n"
     tab = Configuration().read(io.StringIO(text))
@@ -227,6 +232,25 @@ def check_routes(run, bad):
                     bad.append(("routes", "%s, knots (%s, %s, %s) at r=%s: end potentials as built-in forms give %r, the same end potentials spelled as formulas give %r" % (
                         what, rd, rm, ra, x, a(x), vb), dict(params=[A, rho, C, rd, rm, ra])))
                     break
+            from atsim.potentials import plus, product
+            mods = [("exp spline zbl -> sum(buck, constant), exclusive attach", SplinePotential(PFo.zbl(14, 8), plus(PFo.buck(A, rho, C), PFo.constant(0.5)), rd, ra), "T"),
+                    ("exp spline zbl -> sum(buck, constant), inclusive attach", SplinePotential(PFo.zbl(14, 8), plus(PFo.buck(A, rho, C), PFo.constant(0.5)), rd, ra), "S"),
+                    ("buck4 spline sum(bornmayer, constant) -> dispersion", Buck4_SplinePotential(plus(PFo.bornmayer(A, rho), PFo.constant(0.25)), PFo.buck(0.0, 1.0, C), rd, ra, rm), "R"),
+                    ("exp spline zbl -> product(constant, buck)", SplinePotential(PFo.zbl(14, 8), product(PFo.constant(2.0), PFo.buck(A, rho, C)), rd, ra), "Q")]
+            stop = False
+            for what, ref, tag in mods:
+                h = pots[("X%d" % i, tag)].potentialFunction
+                try:
+                    hv = h(x)
+                except Exception as e:
+                    hv = "%s: %s" % (type(e).__name__, e)
+                if isinstance(hv, str) or abs(ref(x) - hv) > 1e-9 * (1 + abs(ref(x))):
+                    bad.append(("routes", "%s, knots (%s, %s, %s) at r=%s: the Python classes give %r, the spline() modifier gives %r" % (what, rd, rm, ra, x, ref(x), hv),
+                                dict(params=[A, rho, C, rd, rm, ra])))
+                    stop = True
+                    break
+            if stop:
+                break
             if abs(g1(x) - g2(x)) > 1e-10 * (1 + abs(g1(x))):
                 bad.append(("routes", "exp spline zbl -> buck knots (%s, %s) at r=%s: SplinePotential %r, spline(... exp_spline ...) %r" % (rd, ra, x, g1(x), g2(x)), dict(params=[A, rho, C, rd, ra])))
                 break
